@@ -169,25 +169,22 @@ class Case:
     # ones — F5 quotes/block strings, F7 self/kwargs, F25 pruning, F28/F29 file-name collisions, F30 input module
     # name — are ordinary inputs now, a failure there is a VIOLATION) ----
     def classes(self) -> set:
+        if getattr(self, "_classes", None) is None:
+            self._classes = self._compute_classes()
+        return self._classes
+
+    def _compute_classes(self) -> set:
         out = set()
-        if S.has_untyped_inline(self.doc):
-            out.add("C04-F2-untyped-inline-fragment")
-        if S.foreign_conditions(self.schema, self.doc):
-            out.add("C04-F23-abstract-type-condition")
+        # an abstract type condition that is neither the enclosing type nor one of the interfaces it implements
+        # (the super-interface case was repaired by 568dfd8)
+        for parent, cond in S.foreign_conditions(self.schema, self.doc):
+            pt = self.schema.get_type(parent)
+            if cond not in {i.name for i in getattr(pt, "interfaces", ())}:
+                out.add("C04-F23-unrelated-abstract-type-condition")
         if re.search(r"(?<![A-Za-z0-9_])_+[0-9]", self.sc.sdl + (self.sc.queries or "")):
             out.add("C04-F18-underscore-digit-name")
         if any("ExtractOperationsPlugin" in p for p in self.sc.config.get("plugins", [])):
             out.add("C04-F32-plugin-written-module")
-        if self.custom_ops:
-            import keyword
-
-            from ariadne_codegen.utils import str_to_snake_case
-
-            roots = [t for t in (self.schema.query_type, self.schema.mutation_type) if t is not None]
-            if any(keyword.iskeyword(str_to_snake_case(f)) for t in roots for f in t.fields):
-                out.add("C04-F34-custom-operation-keyword-field")
-        if any(S.nested_composite_depth(f) >= 2 for f in self.frags):
-            out.add("C04-F33-nested-fragment-class-not-rebuilt")
         return out
 
     def replay(self, **extra) -> dict:
@@ -310,7 +307,10 @@ CORPUS = [
     ("fixed-F5-block", 'query Q { s(x: """block\n  string""") }', {}),
     ("fixed-F7-self", "query Q($self: ID!) { node(id: $self) { id } }", {}),
     ("fixed-F7-kwargs", "query Q($kwargs: ID!) { node(id: $kwargs) { id } }", {}),
-    ("F23", "query Q { animal { ... on Node { id } name } }", {}),
+    ("fixed-F23", "query Q { animal { ... on Node { id } name } }", {}),
+    ("F23-unrelated", "query Q { named { name ... on Node { id } } }", {},
+     "interface Node { id: ID! } interface Named { name: String } type A implements Node & Named { id: ID! name: String } "
+     "type Query { named: Named }"),
     ("fixed-F25", "query Q { animal { name } }", dict(CUSTOM, include_all_enums=False, include_all_inputs=False)),
     ("fixed-F28-refused-custom-fields", "query customFields { s }", CUSTOM),
     ("fixed-F28-refused-custom-queries", "query customQueries { s }", CUSTOM),
@@ -325,8 +325,8 @@ CORPUS = [
     ("ok-custom-operations", "query Q { animal { name } }", CUSTOM),
     ("ok-op-named-like-unwritten-custom-file", "query customFields { s }", {}),
     ("ok-same-class-name-in-two-modules", "query Foo { animal { name } } query FooAnimal { s }", {}),
-    ("F34", "query Q { s }", CUSTOM, "type Query { class: ID! from(x: Int): Int s: String }"),
-    ("F33", "fragment F0 on Person { age } fragment F1 on Person { boss { ...F0 } } "
+    ("fixed-F34", "query Q { s }", CUSTOM, "type Query { class: ID! from(x: Int): Int s: String }"),
+    ("fixed-F33", "fragment F0 on Person { age } fragment F1 on Person { boss { ...F0 } } "
             "fragment F3 on Person { boss { boss { ...F1 } } } query Q { people { ...F0 } }", {},
      "type Person { age: Int boss: Person } type Query { people: [Person] }"),
     # a three-level mixin chain with both ends spread side by side (bases must stay a consistent MRO)
@@ -353,6 +353,14 @@ def corpus_cases() -> list:
 
 
 # ------------------------------------------------------------------------------------------------ the streams
+def _make_base(args):
+    sd, feats, depth = args
+    try:
+        return scenario.make(sd, feats, depth=depth)
+    except RuntimeError:
+        return None
+
+
 def build_cases(ctx) -> list:
     T = ctx.thorough
     base = ctx.seed * 100000
@@ -369,17 +377,34 @@ def build_cases(ctx) -> list:
     cases = []
     depth = 3 if not T else 4
 
+    cache = {}
+
+    def prefetch(first, n, feats):
+        """base scenarios are pure functions of (seed, features, depth): compute the next n in worker processes"""
+        from concurrent.futures import ProcessPoolExecutor
+
+        todo = [(base + i, feats, depth) for i in range(first, first + n) if (i, feats) not in cache]
+        if len(todo) < 4:
+            return
+        with ProcessPoolExecutor(max_workers=min(14, len(todo))) as ex:
+            for (sd, ft, _d), sc in zip(todo, ex.map(_make_base, todo, chunksize=2)):
+                cache[(sd - base, ft)] = sc
+
     def base_scenario(i, feats=()):
-        try:
-            return scenario.make(base + i, feats, depth=depth)
-        except RuntimeError:
+        if (i, feats) in cache:
+            sc = cache.pop((i, feats))
+        else:
+            sc = _make_base((base + i, feats, depth))
+        if sc is None:
             ctx.run.dist("scenarios", "generator-gave-up")
-            return None
+        return sc
 
     k = 0
     for stream, n in counts.items():
         made = 0
         tries = 0
+        if stream not in ("frag_graphs", "references", "enum_reserved"):
+            prefetch(k + 1, n + 3, (stream,) if stream in ("weird_names", "untyped_inline", "foreign_cond") else ())
         while made < n and tries < 4 * n + 8:
             tries += 1
             k += 1
@@ -579,13 +604,9 @@ def judge(case: Case, g, ld) -> dict:
 
 
 SYMPTOMS = {
-    "C04-F2-untyped-inline-fragment": lambda k, d: k == "generation-crash" and "AttributeError" in d and "NoneType" in d,
-    "C04-F23-abstract-type-condition": lambda k, d: k == "generation-crash" and "ParsingError" in d and "not found in type" in d,
+    "C04-F23-unrelated-abstract-type-condition": lambda k, d: k == "generation-crash" and "ParsingError" in d and "not found in type" in d,
     "C04-F32-plugin-written-module": lambda k, d: (k == "reported-files" and "operations.py" in d)
                                      or (k == "import-failed" and ".operations'" in d) or (k == "modules-listed" and "operations" in d),
-    "C04-F33-nested-fragment-class-not-rebuilt": lambda k, d: k == "incomplete-models" and bool(re.findall(r"'(\w+)\.", d))
-                                                 and all(m in ("fragments", "frags") for m in re.findall(r"'(\w+)\.", d)),
-    "C04-F34-custom-operation-keyword-field": lambda k, d: k == "generation-crash" and "InvalidInput" in d and "def " in d,
     "C04-F18-underscore-digit-name": lambda k, d: (k == "generation-crash" and "InvalidInput" in d) or (k == "import-failed" and "SyntaxError" in d),
 }
 
